@@ -743,7 +743,7 @@ func ruleSettingsApplied(p *Prog, r *Out) {
 		for _, s := range fd.Body.List {
 			if es, ok := s.(*ast.ExprStmt); ok {
 				if c, ok := es.X.(*ast.CallExpr); ok {
-					if p.calleeOf(c) == "(*Settings).CopyTo" && squash(p.text(c.Args[0])) == "&sc.clientS" {
+					if (p.calleeOf(c) == "(*Settings).CopyTo" || p.calleeOf(c) == "(*Settings).applyTo") && squash(p.text(c.Args[0])) == "&sc.clientS" {
 						cp = true
 					}
 					if p.calleeOf(c) == "(*HPACK).SetMaxTableSize" && strings.HasPrefix(p.text(c.Fun), "sc.enc.") && strings.Contains(p.text(c.Args[0]), "HeaderTableSize()") {
@@ -1328,7 +1328,7 @@ func ruleClientResponseShape(p *Prog, r *Out) {
 		for _, s := range fd.Body.List {
 			switch x := s.(type) {
 			case *ast.ExprStmt:
-				if cl, ok := x.X.(*ast.CallExpr); ok && p.calleeOf(cl) == "(*Settings).CopyTo" && squash(p.text(cl.Args[0])) == "&c.serverS" {
+				if cl, ok := x.X.(*ast.CallExpr); ok && (p.calleeOf(cl) == "(*Settings).CopyTo" || p.calleeOf(cl) == "(*Settings).applyTo") && squash(p.text(cl.Args[0])) == "&c.serverS" {
 					cp = true
 				}
 			case *ast.IfStmt:
